@@ -6,15 +6,16 @@
    no_occ sw l: the words sw do not occur as a contiguous window of l.
    The locality theorems are stated for snake, kebab, dot, SCREAMING_SNAKE, SCREAMING-TRAIN and PascalCase
    identifiers of neutral words; the doubled-separator clause of the property is FALSE of the function
-   (C07_doubled_separator_refuted, recorded finding doubled_separator_collapsed); camelCase and Train-Case
-   identifiers are decided by the direct oracle.  In PascalCase the words OUTSIDE the span are preserved for every
+   (C07_doubled_separator_refuted, recorded finding doubled_separator_collapsed); camelCase, Train-Case and
+   Title Case phrases: Proofs/CompoundP3.v (C07_locality_camel / _train / _title), which covers every style that keeps
+   word boundaries visible inside one identifier.  In PascalCase the words OUTSIDE the span are preserved for every
    replacement; how the replacement is cased INSIDE the span depends on how it was typed (all-caps styles leak
    their capitals: C07_pascal_caps_inside_span) - that is not a locality failure. *)
 From Coq Require Import String.
 From RN Require Import Base.Bytes Base.Str Model.StyleDef Model.CaseModel Model.CaseSpec Model.Compound.
 From RN Require Import Gen.GenAcronyms Gen.GenStyles.
 From RN Require Import Model.Matcher Model.Enhanced.
-From RN Require Import Proofs.CaseP2 Proofs.CompoundP1 Proofs.CompoundP Proofs.CompoundP2 Proofs.EnhancedP1 Proofs.EnhancedP2.
+From RN Require Import Proofs.CaseP2 Proofs.CompoundP1 Proofs.CompoundP Proofs.CompoundP2 Proofs.CompoundP3 Proofs.EnhancedP1 Proofs.EnhancedP2.
 
 (* soundness: whatever is returned, the identifier's tokens hold the term's tokens as a whole-word window *)
 Theorem C07_soundness : forall ident search repl styles,
@@ -136,6 +137,81 @@ Theorem C07_locality_pascal : forall pfx pre sw rw post S0 S1 styles,
              Pascal 0 0].
 Proof. exact compound_locality_pascal_words_gen. Qed.
 
+(* Train-Case: every word outside the span, every '-' and the prefix are preserved; the replacement's words are
+   capitalised whatever style it was typed in (no all-caps leak: to_style .. Train re-cases) *)
+Theorem C07_locality_train : forall pfx pre sw rw post S0 S1 styles,
+  pfx_ok pfx ->
+  all_neutral gen_acronyms pre = true -> all_neutral gen_acronyms sw = true ->
+  all_neutral gen_acronyms post = true -> all_neutral gen_acronyms rw = true ->
+  sw <> [] -> rw <> [] -> pre ++ post <> [] ->
+  visible S0 = true -> visible S1 = true ->
+  no_occ sw (pre ++ removelast sw) -> no_occ sw post ->
+  existsb (style_eqb Train) styles = true ->
+  find_compound_variants (pfx ++ join [45%N] (map capw (pre ++ sw ++ post)))
+                         (to_style gen_acronyms sw S0) (to_style gen_acronyms rw S1) styles =
+  [mk_cmatch (pfx ++ join [45%N] (map capw (pre ++ sw ++ post)))
+             (pfx ++ join [45%N] (map capw (pre ++ rw ++ post))) Train 0 0].
+Proof. exact compound_locality_train_words. Qed.
+
+(* camelCase, span anywhere (camel ws = first word as it is, the others capitalised; camel_span f pre rw post = the camelCase
+   identifier pre ++ rw ++ post in which the words of rw that are not the identifier's first word are written with f): the words
+   outside the span are preserved for EVERY replacement; inside the span a replacement typed in an all-caps style keeps its
+   capitals (same leak as Pascal), otherwise the result is exactly camel (pre ++ rw ++ post) *)
+Theorem C07_locality_camel_gen : forall pfx pre sw rw post S0 S1 styles,
+  pfx_ok pfx ->
+  all_neutral gen_acronyms pre = true -> all_neutral gen_acronyms sw = true ->
+  all_neutral gen_acronyms post = true -> all_neutral gen_acronyms rw = true ->
+  sw <> [] -> rw <> [] -> pre ++ post <> [] ->
+  visible S0 = true -> visible S1 = true ->
+  no_occ sw (pre ++ removelast sw) -> no_occ sw post ->
+  existsb (style_eqb Camel) styles = true ->
+  find_compound_variants (pfx ++ camel (pre ++ sw ++ post))
+                         (to_style gen_acronyms sw S0) (to_style gen_acronyms rw S1) styles =
+  [mk_cmatch (pfx ++ camel (pre ++ sw ++ post))
+             (pfx ++ camel_span (if all_caps S1 then upper else capw) pre rw post) Camel 0 0].
+Proof. exact compound_locality_camel_words_gen. Qed.
+
+Theorem C07_locality_camel : forall pfx pre sw rw post S0 S1 styles,
+  pfx_ok pfx ->
+  all_neutral gen_acronyms pre = true -> all_neutral gen_acronyms sw = true ->
+  all_neutral gen_acronyms post = true -> all_neutral gen_acronyms rw = true ->
+  sw <> [] -> rw <> [] -> pre ++ post <> [] ->
+  visible S0 = true -> visible S1 = true -> all_caps S1 = false ->
+  no_occ sw (pre ++ removelast sw) -> no_occ sw post ->
+  existsb (style_eqb Camel) styles = true ->
+  find_compound_variants (pfx ++ camel (pre ++ sw ++ post))
+                         (to_style gen_acronyms sw S0) (to_style gen_acronyms rw S1) styles =
+  [mk_cmatch (pfx ++ camel (pre ++ sw ++ post)) (pfx ++ camel (pre ++ rw ++ post)) Camel 0 0].
+Proof. exact compound_locality_camel_words. Qed.
+
+(* Title Case phrases (one "identifier" for the extractor when Title is enabled): words outside the span and the spaces
+   are preserved; a multi-word term is replaced by the capitalised words of the replacement, a ONE-word term by the
+   replacement's words glued together (the one-token window is classified Pascal; observation title_single_word_glued) *)
+Theorem C07_locality_title : forall pfx pre sw rw post S0 S1 styles,
+  pfx_ok pfx ->
+  all_neutral gen_acronyms pre = true -> all_neutral gen_acronyms sw = true ->
+  all_neutral gen_acronyms post = true -> all_neutral gen_acronyms rw = true ->
+  sw <> [] -> rw <> [] -> pre ++ post <> [] ->
+  visible S0 = true -> visible S1 = true ->
+  no_occ sw (pre ++ removelast sw) -> no_occ sw post ->
+  existsb (style_eqb Title) styles = true ->
+  find_compound_variants (pfx ++ join [32%N] (map capw (pre ++ sw ++ post)))
+                         (to_style gen_acronyms sw S0) (to_style gen_acronyms rw S1) styles =
+  [mk_cmatch (pfx ++ join [32%N] (map capw (pre ++ sw ++ post)))
+             (pfx ++ join [32%N] (map capw pre ++
+                                match sw with
+                                | [_] => [concat (map (if all_caps S1 then upper else capw) rw)]
+                                | _ => map capw rw
+                                end ++ map capw post)) Title 0 0].
+Proof. exact compound_locality_title_words. Qed.
+
+Theorem C07_camel_caps_inside_span :
+  find_compound_variants (bs "getUserNameNow") (bs "user_name") (bs "ACCOUNT_NUMBER") gen_all_styles =
+  [mk_cmatch (bs "getUserNameNow") (bs "getACCOUNTNUMBERNow") Camel 0 0] /\
+  find_compound_variants (bs "userNameNow") (bs "user_name") (bs "ACCOUNT_NUMBER") gen_all_styles =
+  [mk_cmatch (bs "userNameNow") (bs "accountNUMBERNow") Camel 0 0].
+Proof. exact compound_camel_caps_leak. Qed.
+
 Theorem C07_pascal_caps_inside_span :
   find_compound_variants (bs "GetUserNameNow") (bs "user_name") (bs "ACCOUNT_NUMBER") gen_all_styles =
   [mk_cmatch (bs "GetUserNameNow") (bs "GetACCOUNTNUMBERNow") Pascal 0 0].
@@ -168,5 +244,10 @@ Print Assumptions C07_locality_screaming_snake.
 Print Assumptions C07_locality_screaming_train.
 Print Assumptions C07_locality_pascal.
 Print Assumptions C07_pascal_caps_inside_span.
+Print Assumptions C07_locality_train.
+Print Assumptions C07_locality_camel_gen.
+Print Assumptions C07_locality_camel.
+Print Assumptions C07_locality_title.
+Print Assumptions C07_camel_caps_inside_span.
 Print Assumptions C07_doubled_separator_refuted.
 Print Assumptions C07_locality_instance.
